@@ -87,10 +87,19 @@ func writeFile(dir, name, content string) string {
 // caller has already validated against the model. It reaches the cobra layer (flag parsing, defaults, wiring)
 // that the library-level check cannot see. No-op when the binary is not available.
 func cliAgree(o *Obs, what string, want string, args ...string) error {
+	return cliAgreeStdin(o, what, want, "", args...)
+}
+
+// cliAgreeStdin: as cliAgree, with the primary input piped to the binary's stdin (the documented default of
+// `sam` sub-commands, `snps -q` and `updown list -q`).
+func cliAgreeStdin(o *Obs, what string, want string, stdin string, args ...string) error {
 	if gofastaBin() == "" {
 		return nil
 	}
-	r := runBin(30*time.Second, "", nil, args...)
+	if stdin != "" {
+		o.Label("cli-arm:stdin")
+	}
+	r := runBin(30*time.Second, stdin, nil, args...)
 	stats.count("cli_runs", 1)
 	o.Label("cli-arm")
 	if r.TimedOut {
